@@ -99,8 +99,8 @@ def run(ctx):
     # individual acquisitions of three threads; the inverted table must deadlock
     c.tlc_l1(ctx, "KBLocks.tla", "MC_KBLocks.cfg", workers=2)
     c.tlc_l1(ctx, "KBLocks.tla", "MC_KBLocks_inverted.cfg", expect_violation="NoDeadlock", workers=2)
-    plan = [("Gen_KnowledgeBase.cfg", {"Names": ["a", "b", "c"]}, 500, 8, 3)] if q else \
-           [("Gen_KnowledgeBase_4.cfg", {"Names": ["a", "b", "c", "d"]}, 20000, 8, 4)]
+    plan = [("Gen_KnowledgeBase.cfg", {"Names": ["a", "b", "c"]}, 500, 8, 2)] if q else \
+           [("Gen_KnowledgeBase_4.cfg", {"Names": ["a", "b", "c", "d"]}, 20000, 8, 3)]
     for cfg, cfgobj, walks, wl, ah in plan:
         edges = ctx.path(cfg + ".edges")
         g = c.tlc_gen(ctx, "KnowledgeBase.tla", cfg, edges, cfgobj=cfgobj, timeout=1500)
